@@ -9,6 +9,7 @@ import io
 
 from simkit import harness as H
 from simkit import httpwire as HW
+from simkit import tls as T
 from simkit import world as W
 from simkit.runner import Result, rng_for
 
@@ -29,8 +30,8 @@ RULE = (
 )
 ASSUMPTIONS = ["blocksize is set to 64 through the public constructor keyword", "str bodies/chunks are compared as UTF-8"]
 REQUIRED_PROBES = {
-    "quick": ["resent_identical", "unrewindable_raised", "bodyless_unframed", "bodyless_cl0", "303_dropped_body", "chunked_ok", "cl_ok", "kind:file_offset", "kind:file_short_reads", "kind:file_seek_none", "kind:generator", "kind:array_h"],
-    "thorough": ["resent_identical", "unrewindable_raised", "bodyless_unframed", "bodyless_cl0", "303_dropped_body", "chunked_ok", "cl_ok", "kind:file_offset", "kind:file_short_reads", "kind:file_seek_none", "kind:generator", "kind:array_h"],
+    "quick": ["resent_identical", "unrewindable_raised", "bodyless_unframed", "bodyless_cl0", "303_dropped_body", "chunked_ok", "cl_ok", "kind:file_offset", "kind:file_short_reads", "kind:file_seek_none", "entry:pool_tls", "call:request", "kind:generator", "kind:array_h"],
+    "thorough": ["resent_identical", "unrewindable_raised", "bodyless_unframed", "bodyless_cl0", "303_dropped_body", "chunked_ok", "cl_ok", "kind:file_offset", "kind:file_short_reads", "kind:file_seek_none", "entry:pool_tls", "call:request", "kind:generator", "kind:array_h"],
 }
 
 BLOCK = 64
@@ -145,7 +146,16 @@ def gen(rng):
         fh = "te"
     elif c < 0.14 and kind in ("bytes", "str", "bytearray", "bytesio", "generator", "list"):
         fh = "cl"
-    return {"property": ID, "entry": rng.choice(["pool", "pm"]), "method": method, "body": spec, "chunked": rng.random() < 0.3, "framing_header": fh, "history": hist}
+    sc = {"property": ID, "entry": rng.choice(["pool", "pm"]), "method": method, "body": spec, "chunked": rng.random() < 0.3, "framing_header": fh, "history": hist}
+    if rng.random() < 0.3:
+        sc["call"] = "request"  # through RequestMethods.request() (which routes by method) instead of urlopen()
+    if rng.random() < 0.08:
+        # the same over TLS (the record layer writes the body in its own portions), with bodies larger than one TLS record
+        sc["entry"] = "pool_tls"
+        if rng.random() < 0.6 and kind in ("bytes", "str", "bytearray", "memoryview", "array_b", "array_h"):
+            spec["size"] = rng.choice([20000, 40000])  # (buffer bodies go out in one piece; file bodies would be read 64 bytes at a time)
+        sc["history"] = [h for h in hist if h in ("rst", "503")][:1]
+    return sc
 
 
 def cases(seed, k, tier):
@@ -169,6 +179,16 @@ def run(sc: dict) -> Result:
             ex.append({"k": "resp", "status": int(h), "headers": [["Location", "/next"]], "body": "moved"})
     w = W.World({"exchanges": ex})
     w.default_listener = H.origin_factory()
+    tls_peers = []
+    if sc["entry"] == "pool_tls":
+        fac = H.tls_origin_factory()
+
+        def listener(world, chan):
+            tp = fac(world, chan)
+            tls_peers.append(tp)
+            return tp
+
+        w.default_listener = listener
     body, want = make_body(sc["body"])
     res.probes["kind:" + sc["body"]["kind"]] += 1
     method = sc["method"]
@@ -181,12 +201,19 @@ def run(sc: dict) -> Result:
     with H.RunEnv(), H.quiet_warnings(), w:
         err = None
         try:
-            if sc["entry"] == "pool":
+            via_request = sc.get("call") == "request"
+            if via_request:
+                res.probes["call:request"] += 1
+            if sc["entry"] == "pool_tls":
+                res.probes["entry:pool_tls"] += 1
+                p = urllib3.HTTPSConnectionPool("origin.test", 443, ca_certs=T.CA_GOOD, timeout=3.0, blocksize=BLOCK)
+                (p.request if via_request else p.urlopen)(method, "/start", body=body, headers=hdrs, retries=retries, chunked=sc["chunked"])
+            elif sc["entry"] == "pool":
                 p = urllib3.HTTPConnectionPool("h.test", 80, timeout=3.0, blocksize=BLOCK)
-                p.urlopen(method, "/start", body=body, headers=hdrs, retries=retries, chunked=sc["chunked"])
+                (p.request if via_request else p.urlopen)(method, "/start", body=body, headers=hdrs, retries=retries, chunked=sc["chunked"])
             else:
                 p = urllib3.PoolManager(timeout=3.0, blocksize=BLOCK)
-                p.urlopen(method, "http://h.test/start", body=body, headers=hdrs, retries=retries, chunked=sc["chunked"])
+                (p.request if via_request else p.urlopen)(method, "http://h.test/start", body=body, headers=hdrs, retries=retries, chunked=sc["chunked"])
         except (W.SimHang, W.StepLimit) as e:
             err = e
             res.bad("hang", str(e))
@@ -196,14 +223,16 @@ def run(sc: dict) -> Result:
         # ---- every attempt, in wire order, by the strict parser
         attempts = []
         broken = None
-        for s in w.sockets:
-            if not s.sent:
+        # what each connection carried: the bytes on the socket, or -- under TLS -- the plaintext the server side decrypted
+        streams = [(tp.chan.sid, bytes(tp.plain_in)) for tp in tls_peers] if sc["entry"] == "pool_tls" else [(s.sid, bytes(s.sent)) for s in w.sockets]
+        for sid_, data_ in streams:
+            if not data_:
                 continue
-            reqs, left, perr = HW.parse_requests(bytes(s.sent))
+            reqs, left, perr = HW.parse_requests(data_)
             for r in reqs:
-                attempts.append((s.sid, r))
+                attempts.append((sid_, r))
             if perr or left:
-                broken = (s.sid, perr, bytes(s.sent)[:200])
+                broken = (sid_, perr, data_[:200])
                 break
         if broken is not None and not (isinstance(err, Exception) and not attempts and False):
             res.bad("malformed_framing", f"socket {broken[0]}: {broken[1]}; wire {broken[2]!r}")
@@ -279,6 +308,10 @@ def shrinks(sc):
     for i in range(len(sc["history"])):
         c = copy.deepcopy(sc)
         del c["history"][i]
+        yield c
+    if sc.get("call"):
+        c = copy.deepcopy(sc)
+        del c["call"]
         yield c
     for fld, simple in (("entry", "pool"), ("chunked", False), ("framing_header", None), ("method", "POST")):
         if sc[fld] != simple:
